@@ -14,6 +14,8 @@ pub enum Term {
     Phys,
     Alt(Vec<String>, Box<Term>),
     Ovl(Vec<Term>),
+    /// an overlay whose n layers are sibling directories (zl1, zl2, ..) of ONE MemoryFS instance
+    OvlShared(usize),
     Fault(Box<Term>),
 }
 
@@ -63,6 +65,12 @@ impl<'a> Parser<'a> {
                 self.expect(b')');
                 Term::Ovl(v)
             }
+            "ovlsh" => {
+                self.expect(b'(');
+                let n: usize = self.ident().parse().expect("layer count");
+                self.expect(b')');
+                Term::OvlShared(n)
+            }
             "fault" => {
                 self.expect(b'(');
                 let inner = self.term();
@@ -80,7 +88,7 @@ impl Term {
             Term::Mem => "mem",
             Term::Phys => "phys",
             Term::Alt(..) => "alt",
-            Term::Ovl(..) => "ovl",
+            Term::Ovl(..) | Term::OvlShared(..) => "ovl",
             Term::Fault(t) => t.kind(),
         }
     }
@@ -91,12 +99,13 @@ impl Term {
             Term::Phys => vec!["mo", "ac"],
             Term::Alt(_, t) => t.sup(),
             Term::Ovl(v) => v[0].sup(),
+            Term::OvlShared(_) => vec!["cr", "mo", "ac"],
             Term::Fault(t) => t.sup(),
         }
     }
     pub fn has_phys(&self) -> bool {
         match self {
-            Term::Mem => false,
+            Term::Mem | Term::OvlShared(_) => false,
             Term::Phys => true,
             Term::Alt(_, t) | Term::Fault(t) => t.has_phys(),
             Term::Ovl(v) => v.iter().any(|t| t.has_phys()),
@@ -106,7 +115,7 @@ impl Term {
         match self {
             Term::Mem | Term::Phys => false,
             Term::Alt(_, t) | Term::Fault(t) => t.has_ovl(),
-            Term::Ovl(_) => true,
+            Term::Ovl(_) | Term::OvlShared(_) => true,
         }
     }
 }
@@ -428,6 +437,17 @@ fn build_fs(t: &Term, ctx: &mut Ctx) -> Box<dyn FileSystem> {
             let roots: Vec<VfsPath> = layers.iter().map(|l| VfsPath::new(BoxFS(build_fs(l, ctx)))).collect();
             Box::new(OverlayFS::new(&roots))
         }
+        Term::OvlShared(n) => {
+            let shared = VfsPath::new(MemoryFS::new());
+            let roots: Vec<VfsPath> = (1..=*n)
+                .map(|i| {
+                    let d = shared.join(format!("zl{i}")).unwrap();
+                    d.create_dir().unwrap();
+                    VfsPath::new(AltrootFS::new(d))
+                })
+                .collect();
+            Box::new(OverlayFS::new(&roots))
+        }
         Term::Fault(inner) => {
             let ctl = FaultCtl::new();
             ctx.faults.push(ctl.clone());
@@ -504,6 +524,20 @@ pub fn build(cfg: &str) -> World {
             for l in ls {
                 let log = RecLog::new();
                 let r = VfsPath::new(RecFS { inner: build_fs(l, &mut ctx), log: log.clone() });
+                layers.push(Layer { root: r.clone(), log });
+                roots.push(r);
+            }
+            VfsPath::new(OverlayFS::new(&roots))
+        }
+        Term::OvlShared(n) => {
+            // top level: every layer (a sibling directory of one MemoryFS) gets its own recording wrapper
+            let shared = VfsPath::new(MemoryFS::new());
+            let mut roots = vec![];
+            for i in 1..=*n {
+                let d = shared.join(format!("zl{i}")).unwrap();
+                d.create_dir().unwrap();
+                let log = RecLog::new();
+                let r = VfsPath::new(RecFS { inner: Box::new(AltrootFS::new(d)), log: log.clone() });
                 layers.push(Layer { root: r.clone(), log });
                 roots.push(r);
             }
